@@ -439,6 +439,35 @@ pub fn invariants(op: Op, own_addr: u16, foreign: u16, script: &[Rep], run: &Run
             }
         }
     }
+    // I6: the two context-dependent points that the documented reset handshake fixes: after an acknowledged start-reset
+    // the sign must say ready-to-reset, after an acknowledged finish-reset it must say unconfigured; anything else is a
+    // reply the protocol does not allow there. I7: after the chunk count, the state query must be answered by the
+    // own-address received / failed state of that transfer.
+    for i in 1..sent.len() {
+        let Some(Ok(rep_i)) = reply_at(i) else { continue };
+        let prev_acked = |op: Operation| sent[i - 1] == Message::RequestOperation(own, op) && reply_at(i - 1) == Some(Ok(Some(Message::AckOperation(own, op))));
+        let last = i + 1 == sent.len();
+        let mut expected: Option<(Vec<Message<'static>>, &'static str)> = None;
+        if sent[i] == Message::Hello(own) && prev_acked(Operation::StartReset) {
+            expected = Some((vec![Message::ReportState(own, State::ReadyToReset)], "hello-after-start-reset"));
+        } else if sent[i] == Message::Hello(own) && prev_acked(Operation::FinishReset) {
+            expected = Some((vec![Message::ReportState(own, State::Unconfigured)], "hello-after-finish-reset"));
+        } else if sent[i] == Message::QueryState(own) && matches!(sent[i - 1], Message::DataChunksSent(_)) {
+            let is_config = sent[..i].iter().rev().find_map(|m| if let Message::RequestOperation(_, o) = m { Some(*o == Operation::ReceiveConfig) } else { None }).unwrap_or(false);
+            let (r, f) = if is_config { (State::ConfigReceived, State::ConfigFailed) } else { (State::PixelsReceived, State::PixelsFailed) };
+            expected = Some((vec![Message::ReportState(own, r), Message::ReportState(own, f)], "query-after-count"));
+        }
+        if let Some((allowed, what)) = expected {
+            if !rep_i.as_ref().map(|r| allowed.contains(r)).unwrap_or(false) {
+                if !last {
+                    out.push(("I6-fail-stop-in-context", format!("{}:sent-after-disallowed-reply-to-{}", opname, what), format!("reply {} to message #{} ({}) is not allowed there, yet message #{} followed: {}", rep_str(script[i]), i, what, i + 1, conv())));
+                } else if run.outcome != Outcome::Protocol {
+                    out.push(("I6-fail-stop-in-context", format!("{}:disallowed-reply-to-{}-gives-{}", opname, what, run.outcome.class()), format!("reply {} to message #{} ({}) is not allowed there, yet the call returned {}: {}", rep_str(script[i]), i, what, run.outcome.class(), conv())));
+                }
+                break;
+            }
+        }
+    }
     // I3: at most three transfer attempts, retry only after the matching 'failed' report from own address
     let reqs: Vec<usize> = sent.iter().enumerate().filter(|(_, m)| matches!(m, Message::RequestOperation(_, Operation::ReceiveConfig | Operation::ReceivePixels))).map(|(i, _)| i).collect();
     if reqs.len() > 3 {
